@@ -172,8 +172,8 @@ Theorem add_var_identifiers cfg r sc name t suffix r' sc' idx :
   AllIdent (sc_vars sc').
 Proof.
   unfold add_var. destruct (populate cfg r (refs t) []) as [[r1 imps]| | | |]; try discriminate.
-  cbn [bind]. destruct (_ && _); [discriminate|]. intros E A D OK S.
-  set (vs1 := rename_for_imports (sc_vars sc) (map (imp_qualifier r1) imps)) in *.
+  cbn [bind]. intros E A D OK S.
+  set (vs1 := rename_for_imports (sc_vars sc) (var_quals r1 imps)) in *.
   assert (A1 : AllIdent vs1) by (apply rename_for_imports_ident; exact A).
   set (n0 := var_name name t suffix) in *.
   assert (I0 : is_identifier n0 = true) by (apply var_name_identifier; assumption).
